@@ -4,7 +4,7 @@ under every from()), replays every case on the model and on the history spec, an
   * the spec on the OBSERVED sink recordings (the property itself, evaluated on the implementation's output), then
   * observed = model (correspondence).
 -/
-import Kap.Spec.C02
+import Kap.Spec.C02Loop
 import Kap.Model.C02Bounded
 import Kap.Gen.C02Cap
 open Kap Kap.C02
@@ -37,8 +37,23 @@ def parseOpts (tok : String) : Option FromOpts :=
     | 'R' => some { o with round := 7000000000 }
     | _ => none) {}
 
+/-- `db;rp;name[;k=v…]` (harness/c02 `loopTok`) -/
+def parseLoop (tok : String) : Option Loop :=
+  match tok.splitOn ";" with
+  | db :: rp :: nm :: tags => do
+    let tags ← tags.mapM (fun kv => match kv.splitOn "=" with
+      | [k, v] => do pure ((← unesc k), (← unesc v))
+      | _ => none)
+    pure { db := (← unesc db), rp := (← unesc rp), name := (← unesc nm), tags := tags }
+  | _ => none
+
 def parseFrom (tok : String) : Option From :=
   match splitBar tok with
+  | [db, rp, nm, wh, opts, par, loops] => do
+    let w ← if wh == "-" then pure none else (do pure (some (← wh.toNat?)))
+    let pa ← if par == "-" then pure none else (do pure (some (← par.toNat?)))
+    pure { db := (← unesc db), rp := (← unesc rp), name := (← unesc nm), wh := w, parent := pa, opts := (← parseOpts opts),
+           loops := (← (loops.splitOn "~").mapM parseLoop) }
   | [db, rp, nm, wh] => do
     let w ← if wh == "-" then pure none else (do pure (some (← wh.toNat?)))
     pure { db := (← unesc db), rp := (← unesc rp), name := (← unesc nm), wh := w }
@@ -170,6 +185,12 @@ structure St where
   hung : Option String := none     -- a call into the real code did not return
   drained : Bool := false          -- Drain was called: WritePoints is closed for good
   http : Bool := false             -- `cfg … http`: the harness sends every plain `write` through POST /write
+  done : Src → Nat := fun _ => 0   -- second layer of the model (`LTM.done`; `LTM.tm` = `model`, `LTM.closed` = `drained`)
+  lhist : List LOp := []           -- reversed history of the second layer
+  sources : List Src := []         -- every loopback node of every definition ever started
+  cursors : List ((String × Nat) × Nat) := []   -- per sink: how many of its observed points the replay has explained
+  loopDelivered : Bool := false
+  bpend : List (LOp × Point) := []   -- points handed to a batch task's loopback node, not yet forked (the node is asynchronous too)
 
 def addBr (st : St) (b : String) : St :=
   if st.branches.contains b then st else { st with branches := b :: st.branches }
@@ -282,6 +303,104 @@ def expectObs (st : St) (op : Op) : String :=
     if d.dbrps.isEmpty then "err:nodbrp" else if st.model.isLive d.id then "err:executing" else "err:snapshot"
   | _ => if st.model.sentOnClosed then "panic" else "ok"
 
+/-! ### second layer: loopback nodes. The harness quiesces before every start / stop / delete / drain, so the looped points of a
+write are all forked before the next such operation — but in which order relative to the later points of the same call and to
+each other is the scheduler's choice. The replay rebuilds ONE schedule from what the sinks recorded: it repeatedly picks an
+enabled action (fork the next external point / the next outstanding point of a loopback node) whose deliveries are exactly what
+the receiving sinks recorded next; actions that are both enabled and both fit commute (no sink receives both). Between two calls
+of external writers the loopback nodes may lag (their points stay outstanding); at a quiescent point everything outstanding is
+forked. When no action fits it takes the first (the final comparison then reports the difference). The history it builds is judged by the spec (`flat`). -/
+
+def ltmOf (st : St) : LTM := { tm := st.model, done := st.done, closed := st.drained }
+
+def cursorOf (st : St) (k : String × Nat) : Nat := ((st.cursors.find? (·.1 == k)).map (·.2)).getD 0
+
+/-- what the sinks record when `q` is forked now: (sink, rendering of the recorded point) -/
+def deliveries (s : TM) (q : Point) : List ((String × Nat) × String) :=
+  let s' := forkPoint s q
+  (s'.log.drop s.log.length).flatMap (fun ep =>
+    (List.range ep.1.task.froms.length).filterMap (fun i =>
+      (chainEmits ep.1.task.froms (i + 1) i ep.2).map (fun m => ((ep.1.task.id, i), renderRec (mkRec ep.2 m)))))
+
+abbrev SinkObs := List ((String × Nat) × Array String)
+
+def fits (obs : SinkObs) (st : St) (ds : List ((String × Nat) × String)) : Bool :=
+  ds.all (fun d =>
+    match obs.find? (·.1 == d.1) with
+    | some o => o.2[cursorOf st d.1]? == some d.2
+    | none => false)
+
+def bump (st : St) (ds : List ((String × Nat) × String)) : St :=
+  ds.foldl (fun st d => { st with cursors := (d.1, cursorOf st d.1 + 1) :: st.cursors.filter (·.1 != d.1) }) st
+
+def applyL (st : St) (lop : LOp) : St :=
+  let l' := lstep (ltmOf st) lop
+  { st with model := l'.tm, done := l'.done, lhist := lop :: st.lhist }
+
+/-- One candidate action: the second-layer operation, the point it forks, the first-layer write it is (external points only). -/
+structure Cand where
+  lop : LOp
+  q : Point
+  note : Option Op := none
+  isLoop : Bool := false
+  isBatch : Bool := false
+
+/-- Forks the pending external points (in their order) and everything the loopback nodes have outstanding, in a schedule that
+explains the sinks. -/
+def schedule (obs : SinkObs) (st : St) (pend : List Cand) (drainAll : Bool := false) : St := Id.run do
+  let mut st := st
+  let mut pend := pend
+  for _ in [0:200000] do
+    let outs : List Cand := st.sources.filterMap (fun src =>
+      ((ltmOf st).outstanding src).head?.map (fun q => { lop := .loop src.1 src.2.1 src.2.2 1, q := q, isLoop := true }))
+    let bcand : List Cand := (st.bpend.head?.map (fun x => ({ lop := x.1, q := x.2, isBatch := true } : Cand))).toList
+    let cands := pend.head?.toList ++ bcand ++ outs
+    if cands.isEmpty then break
+    -- a loopback write after Drain is refused (nothing is forked); so is the write of a batch task's node
+    let dsOf (c : Cand) : List ((String × Nat) × String) :=
+      match c.lop with
+      | .ext _ => deliveries st.model c.q
+      | _ => if st.drained then [] else deliveries st.model c.q
+    -- (between two calls of external writers the loopback nodes may lag: their points are only forced out at a quiescent point)
+    let some pick := (match cands.find? (fun c => fits obs st (dsOf c)) with
+      | some c => some c
+      | none => if !pend.isEmpty || drainAll then cands.head? else none) | break
+    let ds := dsOf pick
+    if pick.isLoop then
+      st := addBr st (if st.drained then "loop-write-after-drain-refused-and-dropped"
+                      else if ds.isEmpty then "loop-write-reaches-no-sink" else "loop-write-delivered")
+      if !pend.isEmpty then st := addBr st "loop-write-forked-between-the-points-of-one-external-call"
+      if !ds.isEmpty then st := { st with loopDelivered := true, anyDelivered := true }
+      if !st.drained && pick.q.pl.tags.any (fun kv => kv.1 == "lb" && kv.2 == "2") then st := addBr st "loop-write-second-hop"
+    else if pick.isBatch then
+      st := { st with bpend := st.bpend.drop 1 }
+      st := addBr st (if st.drained then "batch-loop-write-after-drain-refused" else if ds.isEmpty then "batch-loop-write-reaches-no-sink"
+                      else "batch-loop-write-delivered")
+      if !pend.isEmpty then st := addBr st "batch-loop-write-forked-between-the-points-of-one-external-call"
+      if !ds.isEmpty then st := { st with loopDelivered := true, anyDelivered := true }
+    else
+      pend := pend.drop 1
+    if let some op := pick.note then st := noteOp st op
+    st := bump (applyL st pick.lop) ds
+  return st
+
+/-- static shape of the loopback nodes of a definition that is being started (coverage) -/
+def noteLoops (st : St) (d : TaskDef) : St := Id.run do
+  let mut st := st
+  for f in d.froms do
+    if f.loops.length ≥ 2 then st := addBr st "two-loopback-nodes-under-one-from"
+    for L in f.loops do
+      st := addBr st (if L.name == "" then "loop-keeps-measurement" else "loop-sets-measurement")
+      if L.tags.any (·.1 == "dc") then st := addBr st "loop-sets-a-tag-points-may-carry"
+      if f.opts.truncate > 0 || f.opts.round > 0 then st := addBr st "loop-below-restamping-from"
+      if f.opts.star || !f.opts.dims.isEmpty || f.opts.byName then st := addBr st "loop-below-grouping-from-dimensions-dropped"
+      if f.parent.isSome then st := addBr st "loop-below-chained-from"
+      if f.wh.isSome then st := addBr st "loop-below-where-from"
+      if d.dbrps.any (fun x => x.1.startsWith "lo") then st := addBr st "loop-of-a-task-fed-by-a-loop"
+  if d.dbrps.any (fun x => x.1.startsWith "lo") && d.dbrps.any (fun x => !x.1.startsWith "lo") then
+    st := addBr st "task-declares-external-and-loop-target-pairs"
+  return st
+
 def judge (_id : String) (lines : Array String) : Verdict := Id.run do
   let some cap := edgeCap? | return .badop "the edge capacity was not recognised in the source (Kap/Gen/C02Cap.lean)"
   let mut st : St := {}
@@ -291,8 +410,14 @@ def judge (_id : String) (lines : Array String) : Verdict := Id.run do
     match opT with
     | ["final", _, _] => some (parseObsIds obs)
     | _ => none)
+  let sinkObs : SinkObs := lines.toList.filterMap (fun l =>
+    let (opT, obs) := splitObs (tokens l)
+    match opT with
+    | ["final", T, i] => do pure (((← unesc T), (← i.toNat?)), ((parseObsPts obs).map (·.text)).toArray)
+    | _ => none)
   for l in lines do
     let (opT, obs) := splitObs (tokens l)
+    if obs == ["skip:cycle"] then continue     -- not executed by the harness (it would close a cycle of loopback nodes)
     -- HTTP request / concurrent writers ↦ the WritePoints history they amount to
     let mut opOver : Option Op := none
     match opT with
@@ -371,6 +496,16 @@ def judge (_id : String) (lines : Array String) : Verdict := Id.run do
         if obs != ["err:closed"] && st.hung.isNone then
           st := { st with hung := some s!"write after drain: model err:closed observed {" ".intercalate obs}" }
         if obs != ["ok"] then continue
+    | ["bloop", id, loop, bname, pts] =>
+      let some id' := unesc id | return .badop l
+      let some L := parseLoop loop | return .badop l
+      let some bname' := unesc bname | return .badop l
+      let some pts := parsePoints pts | return .badop l
+      if obs != ["ok"] && st.hung.isNone then st := { st with hung := some s!"bloop: model ok observed {" ".intercalate obs}" }
+      if L.name != "" then st := addBr st "batch-loop-with-measurement-property"
+      st := { st with bpend := st.bpend ++ pts.map (fun r => (.batch id' L bname' [r], L.batchPoint bname' r)) }
+      st := schedule sinkObs st []
+      continue
     | ["race", "hammer"] =>
       -- race child: how many of the background writer's points were routed to tasks of the case (recorded by their sinks)
       if obs != ["0"] then st := addBr st "race-hammer-points-routed-to-tasks-being-stopped"
@@ -391,7 +526,8 @@ def judge (_id : String) (lines : Array String) : Verdict := Id.run do
     | ["final", T, i] =>
       let some T := unesc T | return .badop l
       let some i := i.toNat? | return .badop l
-      let ops := st.hist.reverse
+      st := schedule sinkObs st [] true
+      let ops := flat st.defaultRP st.lhist.reverse
       let sp := renderIds (specDelivered st.defaultRP T i ops)
       let m := renderIds (st.model.delivered T i)
       if sp != "-" then st := addBr st "delivered-nonempty"
@@ -422,6 +558,40 @@ def judge (_id : String) (lines : Array String) : Verdict := Id.run do
     | _ =>
       match (match opOver with | some op => some op | none => parseOp opT) with
       | some op =>
+        -- everything the loopback nodes still hold is forked first (the harness quiesces before every operation)
+        match op with
+        | .write .. => pure ()
+        | _ => st := schedule sinkObs st [] true
+        let selfLoop := match op with
+          | .start d | .startfail d => !d.dbrps.isEmpty && !st.model.isLive d.id && d.selfLoop
+          | _ => false
+        if selfLoop then
+          -- "loop detected": refused by NewExecutingTask, before newFork
+          st := addBr st "start-self-loop-refused"
+          if obs != ["err:loop"] && st.hung.isNone then
+            st := { st with hung := some s!"{" ".intercalate (opT.take 2)}: model err:loop observed {" ".intercalate obs}" }
+          st := { applyL st (.ext op) with hist := op :: st.hist }
+          continue
+        match op with
+        | .write db rp pts =>
+          if !st.sources.isEmpty then
+            -- loopback nodes exist: the points of the call are forked one by one, interleaved with what is written back
+            if obs != ["ok"] && st.hung.isNone then
+              st := { st with hung := some s!"{" ".intercalate (opT.take 2)}: model ok observed {" ".intercalate obs}" }
+            if st.drained then st := addBr st "write-through-stream-after-drain"
+            let rp' := if rp == "" then st.model.defaultRP else rp
+            st := schedule sinkObs st (pts.map (fun r =>
+              { lop := .ext (.write db rp [r]), q := mkPoint db rp' r, note := some (.write db rp [r]) }))
+            st := { st with hist := op :: st.hist }
+            continue
+        | .start d =>
+          if !d.dbrps.isEmpty && !st.model.isLive d.id then
+            st := noteLoops st d
+            let srcs : List Src := (List.range d.froms.length).flatMap (fun i =>
+              (List.range ((d.froms[i]?.map (·.loops.length)).getD 0)).map (fun k => (d.id, i, k)))
+            st := { st with sources := st.sources ++ srcs.filter (fun x => !st.sources.contains x) }
+        | _ => pure ()
+        st := { st with lhist := .ext op :: st.lhist }
         st := noteOp st op
         -- the bounded model with the capacity read from the source (theorem bounded_edges_never_block: = `step`, never blocked)
         let b' := stepB cap { tm := st.model } op
@@ -453,7 +623,7 @@ def judge (_id : String) (lines : Array String) : Verdict := Id.run do
       | none => return .badop l
   -- non-trivial: something was delivered AND (the two-key case occurred, or another task was started/stopped while one was running)
   if let some h := st.hung then return .mismatch s!"implementation and model differ: {h}"
-  let nt := st.anyDelivered && (st.sawDedupe || (st.sawTwoRunning && st.otherOpBetween))
+  let nt := st.anyDelivered && (st.sawDedupe || (st.sawTwoRunning && st.otherOpBetween) || st.loopDelivered)
   return .ok nt st.branches.reverse
 
 end Kap.C02.Drv
